@@ -959,3 +959,8 @@ Example ll_sky_build_wide : ll_sky_build (flat_of exw) [0%nat] = OutOfBounds.
 Proof. by_eqb. Qed.
 End Examples.
 
+
+(* n = 0 in one statement (used by Properties_C10.v) *)
+Lemma ll_sky_build_n0_both :
+  ll_sky_build (flat_of ex0) [] = OutOfBounds /\ sky_out_of (sky_build_perm ex0 []) = KThrow.
+Proof. exact (conj ll_sky_build_n0 sky_build_perm_n0). Qed.
